@@ -73,13 +73,15 @@ async fn recognize(stream: &mut TcpStream) -> Result<Proxy, anyhow::Error> {
 }
 
 /// Consume the head of a CONNECT request up to and including its empty line, and nothing after it:
-/// the head may arrive in several segments, and what follows it belongs to the tunnel
+/// the head may arrive in several segments, and what follows it belongs to the tunnel.
+/// Empty lines before the request line (the request parser skips them) are part of the head, not its end
 async fn consume_request_head(stream: &mut TcpStream) -> anyhow::Result<()> {
     let mut buf = [0; 8192];
     loop {
         let len = stream.peek(&mut buf).await?;
-        if let Some(end) = buf[..len].windows(4).position(|w| w == b"\r\n\r\n") {
-            stream.read_exact(&mut buf[..end + 4]).await?;
+        let start = buf[..len].iter().position(|b| !matches!(b, b'\r' | b'\n')).unwrap_or(len);
+        if let Some(end) = buf[start..len].windows(4).position(|w| w == b"\r\n\r\n") {
+            stream.read_exact(&mut buf[..start + end + 4]).await?;
             return Ok(());
         }
         if len == 0 || len == buf.len() {
